@@ -283,7 +283,7 @@ class PeriodicGrid(Grid):
         # the 3D case, these are the distances between two adjacent planes
         # with Miller indices {100}, {010} and {001}, respectively.
         if points.ndim == 1:
-            spacings = 1 / self._recivecs
+            spacings = 1 / np.abs(self._recivecs)
         else:
             spacings = 1 / np.linalg.norm(self._recivecs, axis=1)
         self._spacings = spacings
